@@ -14,7 +14,7 @@ RULE = ("Cases: call histories over the 19-action alphabet {set_up(level in None
         "INFO/DEBUG), disable, enable, sift(verbose in None/CRITICAL/WARNING/INFO/DEBUG) that returns, the same call made to "
         "raise (3-D input)}: exhaustively every history of length 1..3 (quick) / 1..4 (thorough) from both the never-set-up "
         "and the set-up state; Hypothesis histories up to length 12 that also use set_up(log_file=tmp), mask_sift, "
-        "ensemble_sift and complete_ensemble_sift; and a sample of random histories replayed in genuinely fresh "
+        "ensemble_sift, complete_ensemble_sift and calls passing `verbose` positionally; and a sample of random histories replayed in genuinely fresh "
         "interpreters (validates the in-process re-creation of the never-set-up state). Oracle: a model of the console "
         "level (None before set-up; INFO after set_up(); the last explicit level otherwise); after every step get_level() "
         "must equal the model; a call's only exception is the one it was built to raise; every returning call's output is "
@@ -30,6 +30,8 @@ ALPHABET = ([('set_up', l) for l in (None, 'WARNING', 'DEBUG')] +
             [('disable',), ('enable',)] +
             [('call', v, False, 'sift') for v in (None, 'CRITICAL', 'WARNING', 'INFO', 'DEBUG')] +
             [('call', v, True, 'sift') for v in (None, 'CRITICAL', 'WARNING', 'INFO', 'DEBUG')])
+# beyond the 19-action alphabet (random histories only): the same calls with `verbose` given positionally
+POSITIONAL = [('call', v, r, 'sift-positional') for v in ('CRITICAL', 'WARNING', 'INFO', 'DEBUG') for r in (False, True)]
 
 _state = {}
 
@@ -80,6 +82,8 @@ class CountingStream:
 def variant_call(emd, variant, x, **kw):
     if variant == 'sift':
         return emd.sift.sift(x, max_imfs=2, **kw)
+    if variant == 'sift-positional':
+        return emd.sift.sift(x, 1e-8, 2, kw.get('verbose'))
     if variant == 'mask_sift':
         return emd.sift.mask_sift(x, max_imfs=2, mask_freqs=[0.2, 0.08], **kw)
     np.random.seed(7)
@@ -103,7 +107,7 @@ def run_history(emd, start, hist, rec=None, tmpdir=None):
     real_stdout = sys.stdout
     sys.stdout = counter
     try:
-        bases = {v: baseline(emd, v) for v in {op[3] for op in hist if op[0] == 'call'}}
+        bases = {v: baseline(emd, v.replace('-positional', '')) for v in {op[3] for op in hist if op[0] == 'call'}}
         reset_logging()
         model = None
         if start == 'setup':
@@ -163,6 +167,8 @@ def run_history(emd, start, hist, rec=None, tmpdir=None):
                 except Exception as e:
                     raise Violation('C20/call-raises/%s/%s/%s/%s' % (type(e).__name__, otag, where, 'raising-call' if raises else 'returning-call'),
                                     '%r in history %r (start %s) step %d' % (e, hist, start, i))
+            if op[0] == 'call' and op[3] == 'sift-positional':
+                rec.cls('positional-verbose')    # whether a positional value overrides is not specified; it must not stick
             if op[0] == 'call' and op[3] == 'sift' and model is not None:
                 # the override must be in force *during* the call: INFO records (STARTED/COMPLETED) reach the
                 # console iff the effective level is <= INFO and logging is not disabled
@@ -202,6 +208,7 @@ def enum_histories(tier):
 
 OPS = st.one_of(
     st.sampled_from(ALPHABET),
+    st.sampled_from(ALPHABET + POSITIONAL),
     st.tuples(st.just('set_up'), st.sampled_from([None, 'WARNING', 'DEBUG', 'INFO']), st.just(True)),
     st.tuples(st.just('call'), st.sampled_from([None, 'CRITICAL', 'WARNING', 'INFO', 'DEBUG']), st.booleans(),
               st.sampled_from(['sift', 'mask_sift', 'ensemble_sift', 'complete_ensemble_sift'])))
@@ -279,7 +286,7 @@ def oracle_fresh(case, rec):
 CLAUSES = [
     Clause('C20.exhaustive', oracle, enumerate=enum_histories, quick=None, thorough=None, shards=(16, 16), exhaustive=True,
            nt_rule='>= 1 verbosity override after >= 1 level change'),
-    Clause('C20.random', oracle, strategy=random_strategy, quick=480, thorough=12000, shards=(16, 16),
+    Clause('C20.random', oracle, strategy=random_strategy, quick=960, thorough=12000, shards=(16, 16),
            nt_rule='>= 1 verbosity override after >= 1 level change'),
     Clause('C20.fresh', oracle_fresh, strategy=random_strategy, quick=64, thorough=320, shards=(16, 16),
            nt_rule='>= 1 verbosity override after >= 1 level change'),
